@@ -475,15 +475,21 @@ impl<'a> Model<'a> {
                 array = Some(*r);
             }
         }
-        let formula_or_value = self
-            .get_cell_formula(sheet, source_row, source_column)?
-            .unwrap_or_else(|| {
-                source_cell.get_localized_text(
-                    &self.workbook.shared_strings,
-                    self.locale,
-                    self.language,
-                )
-            });
+        let formula_or_value = match self.get_cell_formula(sheet, source_row, source_column)? {
+            Some(f) => f,
+            None => {
+                // A cell without a formula is moved as it is. Re-entering its text
+                // through `set_user_input` would re-interpret the content: a quote
+                // prefixed string would turn into a number, boolean, error or formula,
+                // a number would be rounded to its displayed digits and an URL-like
+                // string would get a new link.
+                let cell = source_cell.clone();
+                let worksheet = self.workbook.worksheet_mut(sheet)?;
+                worksheet.update_cell(target_row, target_column, cell)?;
+                worksheet.remove_cell(source_row, source_column)?;
+                return Ok(());
+            }
+        };
 
         if let Some((width, height)) = array {
             // We are moving an array formula, we need to move the whole range
@@ -1050,15 +1056,14 @@ impl<'a> Model<'a> {
                 .cell(r.row, column)
                 .ok_or("Expected Cell to exist")?;
             let style_idx = cell.get_style();
-            let formula_or_value =
-                self.get_cell_formula(sheet, r.row, column)?
-                    .unwrap_or_else(|| {
-                        cell.get_localized_text(
-                            &self.workbook.shared_strings,
-                            self.locale,
-                            self.language,
-                        )
-                    });
+            // Cells without a formula are moved as they are (see `move_cell`)
+            let formula = self.get_cell_formula(sheet, r.row, column)?;
+            let plain_cell = if formula.is_none() {
+                Some(cell.clone())
+            } else {
+                None
+            };
+            let formula_or_value = formula.unwrap_or_default();
 
             let mut array = None;
 
@@ -1098,7 +1103,7 @@ impl<'a> Model<'a> {
                 }
             }
 
-            original_cells.push((r.row, formula_or_value, style_idx, array));
+            original_cells.push((r.row, formula_or_value, style_idx, array, plain_cell));
             let ws = self.workbook.worksheet_mut(sheet)?;
             ws.remove_cell(r.row, column)?;
         }
@@ -1135,8 +1140,12 @@ impl<'a> Model<'a> {
                     .set_column_width_and_style(c + 1, w, h, s)?;
             }
         }
-        for (r, value, style_idx, array) in original_cells {
-            if let Some(a) = array {
+        for (r, value, style_idx, array, plain_cell) in original_cells {
+            if let Some(cell) = plain_cell {
+                self.workbook
+                    .worksheet_mut(sheet)?
+                    .update_cell(r, target_column, cell)?;
+            } else if let Some(a) = array {
                 self.set_user_array_formula(sheet, r, target_column, a.0, a.1, &value)?;
             } else {
                 self.set_user_input(sheet, r, target_column, value)?;
@@ -1202,9 +1211,14 @@ impl<'a> Model<'a> {
                 .cell(row, *c)
                 .ok_or("Expected Cell to exist")?;
             let style_idx = cell.get_style();
-            let formula_or_value = self.get_cell_formula(sheet, row, *c)?.unwrap_or_else(|| {
-                cell.get_localized_text(&self.workbook.shared_strings, self.locale, self.language)
-            });
+            // Cells without a formula are moved as they are (see `move_cell`)
+            let formula = self.get_cell_formula(sheet, row, *c)?;
+            let plain_cell = if formula.is_none() {
+                Some(cell.clone())
+            } else {
+                None
+            };
+            let formula_or_value = formula.unwrap_or_default();
             let mut array = None;
 
             match cell {
@@ -1242,7 +1256,7 @@ impl<'a> Model<'a> {
                     array = Some(*r);
                 }
             }
-            original_cells.push((*c, formula_or_value, style_idx, array));
+            original_cells.push((*c, formula_or_value, style_idx, array, plain_cell));
             let ws = self.workbook.worksheet_mut(sheet)?;
             ws.remove_cell(row, *c)?;
         }
@@ -1261,8 +1275,12 @@ impl<'a> Model<'a> {
                 }
             }
         }
-        for (c, value, style_idx, array) in original_cells {
-            if let Some(array_range) = array {
+        for (c, value, style_idx, array, plain_cell) in original_cells {
+            if let Some(cell) = plain_cell {
+                self.workbook
+                    .worksheet_mut(sheet)?
+                    .update_cell(target_row, c, cell)?;
+            } else if let Some(array_range) = array {
                 self.set_user_array_formula(
                     sheet,
                     target_row,
